@@ -184,6 +184,25 @@ def mutants(pool_full, pool_alpha, pool_small, rng):
                     yield s[:i] + ch + s[i + 1:]
             if i < len(s):
                 yield s[:i] + s[i + 1:]
+    # bracket ORDER mutants (two characters at once, so that the bracket totals stay balanced): every '(' exchanged with a later ')' of the
+    # string, ')(' inserted at every position, a balanced pair inserted the wrong way round at two positions
+    for s in list(pool_full) + list(pool_alpha):
+        seen = set()
+        opens = [i for i in range(len(s)) if s[i:i + 1] == b'(']
+        closes = [i for i in range(len(s)) if s[i:i + 1] == b')']
+        out = []
+        for i in opens:
+            for j in closes:
+                if j > i:
+                    out.append(s[:i] + b')' + s[i + 1:j] + b'(' + s[j + 1:])
+        for i in range(len(s) + 1):
+            out.append(s[:i] + b')(' + s[i:])
+            for j in range(i + 1, min(len(s), i + 6) + 1):
+                out.append(s[:i] + b')' + s[i:j] + b'(' + s[j:])
+        for m in out:
+            if m not in seen:
+                seen.add(m)
+                yield m
     for pool, chars, extra in ((pool_full, allbytes, 0), (pool_alpha, alpha, 2), (pool_small, small, 2)):
         for s in pool:
             seen = set()                       # per source formula (a global set costs ~1 GB in the thorough tier)
@@ -373,7 +392,9 @@ def main(tier):
     # hand-written strings of every rejection class (so that each class is exercised whatever the seed)
     for s in ['', ' ', 'H 2', 'H2O ', 'H+', 'H2,5', 'H2O\n', '\xe9', 'H)', '(H', ')H(', '((H)', 'Xx', 'Ha', 'hO', 'Hoo', 'H0', 'H0.0', 'H00', '(H)0', 'H2.5.1', 'H..', 'H.',
               '.', '(.)', 'Rf', 'Db2O', 'H(Sg)', 'Bh0.5', '2H', '(2H)', 'H(2)', '.Cl', '(.No4)', 'Yb4(Mg)a2.30Zr3', '.uNe', '(H)a', 'H1.a', '.5H', 'H.5', 'H5.', '()', 'H()',
-              'H' + '9' * 100, 'H1e2', 'H-1', 'H1E2']:
+              'H' + '9' * 100, 'H1e2', 'H-1', 'H1E2',
+              # a closing bracket BEFORE its opening one, totals equal (only a depth that may not go negative rejects these)
+              'H2O)(', 'Ca)(CO3', 'Si)O2(', 'H2)(O', 'Fe2)x y!#(O3', ')(H', 'H)(', 'H)O(', ')H2(O', 'H2)2(O', 'H)2(O)3(H', '(H2O))((OH)', 'Ca)5(PO4)3(F']:
         mon.check(s.encode('latin1'), 'hand')
     # (4) mutants ---------------------------------------------------------------------------------------------------------
     short = sorted(set(p for p in pool if 4 <= len(p) <= 14))
